@@ -5,7 +5,7 @@
 //! plemma: C18 lemma_branch_hash_is_symmetric: the branch hash of two children does not depend on the order in which they are given
 //! trusted: R15 (deep slices): the three `TryFrom<ParsedMessage<..>>::try_from` functions unpack large TLV tuples and run semantic validation; the unit extracts, on every run and verbatim, the signature tail of each (missing-signature test, TaggedHash::from_valid_tlv_stream_bytes(SIGNATURE_TAG, &bytes), choice of the key, merkle::verify_signature(..)?), and merkle::verify_signature whole; Secp256k1::verify_schnorr is external_body over the uninterpreted schnorr_valid; TaggedHash is an opaque value determined by (tag, bytes); contents skeletons keep only the signing keys; TLV parsing, semantic validation of the contents and construction of the result are dropped and not claimed
 //! trusted: assume_specification for core::cmp::max / core::cmp::min (std definitions): present in every unit so that a change that introduces them is verified instead of being rejected by the tool
-//! trusted: merkle_hashes: tagged_hash_engine, tagged_hash_from_engine and tagged_branch_hash_from_engine are extracted whole against a SHA256 engine stub that records the concatenation of its inputs (sha256_spec uninterpreted); `mut engine` / `msg: T: AsRef<[u8]>` parameters are taken as a by-value engine bound to a mutable local and a byte slice (R5); `leaf1 < leaf2` on hashes is the uninterpreted total order hash_lt (axiom: antisymmetric and total); merkle_tlv_data: the predicate that selects the records covered by the root is sliced (SIGNATURE_TYPES, a RangeInclusive<u64> constant, is re-declared as a two-field range with the same bounds, R1); root_hash's pairing loop (step_by / zip) and the per-record hashing closure are not under contract
+//! trusted: merkle_hashes: tagged_hash_engine, tagged_hash_from_engine and tagged_branch_hash_from_engine are extracted whole against a SHA256 engine stub that records the concatenation of its inputs (sha256_spec uninterpreted); `mut engine` / `msg: T: AsRef<[u8]>` parameters are taken as a by-value engine bound to a mutable local and a byte slice (R5); `leaf1 < leaf2` on hashes is the uninterpreted total order hash_lt (axiom: antisymmetric and total); merkle_tlv_data: the predicate that selects the records covered by the root is sliced (SIGNATURE_TYPES, a RangeInclusive<u64> constant, is re-declared as a two-field range with the same bounds and RangeInclusive's contains / start / end, R1; statements placed between the tag engines and the filter are part of the slice); root_hash's pairing loop (step_by / zip) and the per-record hashing closure are not under contract
 use vstd::prelude::*;
 verus! {
 use vstd::std_specs::cmp::*;
@@ -196,7 +196,11 @@ pub open spec fn hi(a: [u8; 32], b: [u8; 32]) -> [u8; 32] { if hash_lt(a, b) { b
     engine.input(leaf2.as_ref()); engine.input(leaf2.as_ref());
 //@end
 pub struct TypeRange { pub lo: u64, pub hi: u64 }
-impl TypeRange { pub fn contains(&self, t: &u64) -> (r: bool) ensures r == (self.lo <= *t <= self.hi) { self.lo <= *t && *t <= self.hi } }
+impl TypeRange {
+    pub fn contains(&self, t: &u64) -> (r: bool) ensures r == (self.lo <= *t <= self.hi) { self.lo <= *t && *t <= self.hi }
+    pub fn start(&self) -> (r: &u64) ensures *r == self.lo { &self.lo }
+    pub fn end(&self) -> (r: &u64) ensures *r == self.hi { &self.hi }
+}
 //@extract lightning/src/offers/merkle.rs :: const SIGNATURE_TYPES
 //@rw R1
     : core::ops::RangeInclusive<u64> = $a:lit..=$b:lit;
@@ -206,9 +210,9 @@ impl TypeRange { pub fn contains(&self, t: &u64) -> (r: bool) ensures r == (self
 pub struct TlvRecord { pub r#type: u64 }
 //@extract lightning/src/offers/merkle.rs :: fn merkle_tlv_data
 //@slice R15
-    tlv_stream.filter(|record| $p:cond).map(move |record| {
+    let iter_branch_tag = branch_tag.clone(); $pre:straight let tlv_data = tlv_stream.filter($mv:any |record| $p:cond).map(move |record| {
 //@with
-    fn record_is_covered_by_the_root(record: &TlvRecord) -> bool { $p }
+    fn record_is_covered_by_the_root(record: &TlvRecord) -> bool { $pre $p }
 //@ret r
 //@ensures P C18 every-tlv-record-outside-the-signature-range-240-to-1000-is-covered-by-the-signed-merkle-root
     r == !(240 <= record.r#type <= 1000),
